@@ -63,7 +63,49 @@ fn mk_limits(l: &Limits) -> limits::Limits {
     if l.send_buffer > 0 {
         v = v.with_max_send_buffer_size(l.send_buffer as u32).expect("send buffer");
     }
+    set!(active_cid_limit, with_max_active_connection_ids);
     v
+}
+
+/// deterministic connection-id provider (C13 scenarios): ids are drawn from the scenario PRNG, have the
+/// configured length / lifetime and the configured handshake-id rotation setting
+pub struct CidFormat {
+    rng: Rng,
+    len: usize,
+    lifetime: Option<Duration>,
+    rotate: bool,
+}
+
+impl CidFormat {
+    fn new(seed: u64, (len, lifetime_ms, rotate): (usize, Option<u64>, bool)) -> Self {
+        Self { rng: Rng(cfg::mix(seed ^ 0xc1d0_c1d0)), len: len.clamp(4, 20), lifetime: lifetime_ms.map(Duration::from_millis), rotate }
+    }
+}
+
+impl s2n_quic::provider::connection_id::Generator for CidFormat {
+    fn generate(&mut self, _info: &s2n_quic::provider::connection_id::ConnectionInfo) -> s2n_quic::provider::connection_id::LocalId {
+        let mut id = [0u8; 20];
+        for b in id.iter_mut() {
+            *b = self.rng.next() as u8;
+        }
+        s2n_quic::provider::connection_id::LocalId::try_from_bytes(&id[..self.len]).expect("length checked")
+    }
+    fn lifetime(&self) -> Option<Duration> {
+        self.lifetime
+    }
+    fn rotate_handshake_connection_id(&self) -> bool {
+        self.rotate
+    }
+}
+
+impl s2n_quic::provider::connection_id::Validator for CidFormat {
+    fn validate(&self, _info: &s2n_quic::provider::connection_id::ConnectionInfo, buffer: &[u8]) -> Option<usize> {
+        if buffer.len() >= self.len {
+            Some(self.len)
+        } else {
+            None
+        }
+    }
 }
 
 pub struct Random(Rng);
@@ -89,19 +131,9 @@ impl s2n_quic::provider::random::Generator for Random {
     }
 }
 
-macro_rules! build {
-    ($builder:expr, $handle:expr, $cfg:expr, $ep:expr, $lim:expr, $tls:expr, $salt:expr) => {{
-        let mut io = $handle.builder();
-        if $cfg.max_mtu > 0 {
-            io = io.with_max_mtu($cfg.max_mtu);
-        }
-        let b = $builder
-            .with_io(io.build()?)?
-            .with_tls($tls)?
-            .with_event(Sub { enabled: $cfg.events })?
-            .with_random(Random(Rng(cfg::mix($cfg.seed ^ $salt))))?
-            .with_limits(mk_limits($lim))?
-            .with_packet_interceptor(Icpt::new($ep, $cfg))?;
+macro_rules! finish {
+    ($b:expr, $cfg:expr) => {{
+        let b = $b;
         if $cfg.cc == "bbr" {
             b.with_congestion_controller(Bbr::default())?.start()?
         } else {
@@ -110,17 +142,111 @@ macro_rules! build {
     }};
 }
 
+/// deterministic, keyed stateless reset tokens (same token for the same connection id)
+#[derive(Debug)]
+pub struct SResetTokens(pub u64);
+
+impl s2n_quic::provider::stateless_reset_token::Generator for SResetTokens {
+    const ENABLED: bool = true;
+
+    fn generate(&mut self, local_connection_id: &[u8]) -> s2n_quic_core::stateless_reset::Token {
+        let mut h = self.0;
+        for b in local_connection_id {
+            h = cfg::mix(h ^ *b as u64);
+        }
+        let mut t = [0u8; 16];
+        t[..8].copy_from_slice(&cfg::mix(h).to_le_bytes());
+        t[8..].copy_from_slice(&cfg::mix(h ^ 0xabcd).to_le_bytes());
+        t.into()
+    }
+}
+
+impl s2n_quic::provider::stateless_reset_token::Provider for SResetTokens {
+    type Generator = Self;
+    type Error = core::convert::Infallible;
+
+    fn start(self) -> std::result::Result<Self::Generator, Self::Error> {
+        Ok(self)
+    }
+}
+
+macro_rules! build {
+    ($builder:expr, $io:expr, $cfg:expr, $ep:expr, $lim:expr, $tls:expr, $salt:expr) => {{
+        let mut io = $io;
+        if $cfg.max_mtu > 0 {
+            io = io.with_max_mtu($cfg.max_mtu);
+        }
+        let b = $builder
+            .with_io(io.build()?)?
+            .with_tls(crate::tpw::TpTls { inner: $tls, limit: $lim.active_cid_limit })?
+            .with_event(Sub { enabled: $cfg.events, endpoint_drops: $cfg.endpoint_drops })?
+            .with_random(Random(Rng(cfg::mix($cfg.seed ^ $salt))))?
+            .with_limits(mk_limits($lim))?
+            .with_packet_interceptor(Icpt::new($ep, $cfg))?;
+        // same settings as the library's default connection-id provider (16 random bytes, no lifetime,
+        // handshake-id rotation on) unless a C13 parameter says otherwise; bytes come from the scenario PRNG
+        let f = $cfg.cid_format($lim).unwrap_or((16, None, true));
+        let b = b.with_connection_id(CidFormat::new($cfg.seed ^ $salt, f))?;
+        if $cfg.sreset && $ep == "s" {
+            // stateless resets are off by default in s2n-quic; a keyed generator turns them on (scenario parameter)
+            let b = b.with_stateless_reset_token(SResetTokens(cfg::mix($cfg.seed ^ 0x5e5e)))?;
+            finish!(b, $cfg)
+        } else {
+            finish!(b, $cfg)
+        }
+    }};
+}
+
+/// client address rebinding schedule (NAT rebinding / migration as seen by the server): at each listed
+/// virtual time the client's socket moves to a fresh port (or IP address)
+fn rebinder(cfg: &Cfg) -> impl FnOnce(io::Socket) + 'static {
+    let times = cfg.rebind_at_ms.clone();
+    let mode = cfg.rebind_ip;
+    move |socket: io::Socket| {
+        spawn(async move {
+            for (k, at) in times.iter().enumerate() {
+                let now_ms = trace::now() / 1000;
+                if *at > now_ms {
+                    io::time::delay(Duration::from_millis(*at - now_ms)).await;
+                }
+                let Ok(old) = socket.local_addr() else { return };
+                let mut new = old;
+                let change_ip = mode == 1 || (mode == 2 && k % 2 == 1);
+                if change_ip {
+                    if let std::net::IpAddr::V4(ip) = old.ip() {
+                        let v = u32::from_be_bytes(ip.octets()).wrapping_add(1);
+                        new.set_ip(std::net::Ipv4Addr::from(v).into());
+                    }
+                } else {
+                    new.set_port(old.port().wrapping_add(1).max(1024));
+                }
+                socket.rebind(new);
+                log("c", format!("rebind {old} {new}"));
+            }
+        });
+    }
+}
+
 pub fn setup(handle: &Handle, cfg: &Cfg) -> Result<()> {
     let server: Server = build!(
         Server::builder(),
-        handle,
+        handle.builder(),
         cfg,
         "s",
         &cfg.server,
-        (certificates::CERT_PEM, certificates::KEY_PEM),
+        s2n_quic::provider::tls::default::Server::builder().with_certificate(certificates::CERT_PEM, certificates::KEY_PEM)?.build()?,
         0x5e
     );
-    let client: Client = build!(Client::builder(), handle, cfg, "c", &cfg.client, certificates::CERT_PEM, 0xc1);
+    let client_io = if cfg.rebind_at_ms.is_empty() { handle.builder() } else { handle.builder().on_socket(rebinder(cfg)) };
+    let client: Client = build!(
+        Client::builder(),
+        client_io,
+        cfg,
+        "c",
+        &cfg.client,
+        s2n_quic::provider::tls::default::Client::builder().with_certificate(certificates::CERT_PEM)?.build()?,
+        0xc1
+    );
     let addr = start_server(server, cfg.clone())?;
     start_client(client, addr, cfg.clone());
     // watchdog: give up at the deadline (reported, so that "never terminates" is observable)
@@ -388,6 +514,29 @@ fn start_client(client: Client, addr: std::net::SocketAddr, cfg: Cfg) {
         }
         for t in tasks {
             let _ = t.await;
+        }
+        // hold phase (C13): keep the connection alive in virtual time with one small stream per tick, so
+        // that connection-id lifetimes expire and rebinding schedules play out on a live connection
+        if cfg.hold_ms > 0 {
+            let mut k = 0u64;
+            while trace::now() / 1000 < cfg.hold_ms {
+                io::time::delay(Duration::from_millis(cfg.tick_ms)).await;
+                let mut h = handle.clone();
+                match h.open_send_stream().await {
+                    Ok(send) => {
+                        let sid: u64 = send.id().into();
+                        log("c", format!("open {sid} uni"));
+                        let key = cfg::stream_key(cfg.seed, sid, false);
+                        let size = 1 + (cfg::mix(cfg.seed ^ k) % 600);
+                        write_all("c", send, key, size, cfg.clone(), None, 0x7b).await;
+                    }
+                    Err(e) => {
+                        log("c", format!("err - open_send_stream {}", dbg(&e)));
+                        break;
+                    }
+                }
+                k += 1;
+            }
         }
         log("c", "done".to_string());
         // linger so that final ACKs / closes are exchanged and observed
